@@ -14,7 +14,7 @@ from .. import gen, models, measure, estim, oracles
 ID = 'C08'
 RULE = ('random domain (2-5 attrs, <= 600 cells) x measurement class {empty, consistent with uniform (MD early exit), all-zero '
         'queries (L = 0), ordinary, boundary optimum (N = 1), single attribute, noise 1e-3..1e-6 (line search exhausted)} x solver {MD, RDA, IG} x iterations '
-        '{1,2,3,10,100,1000} x structural zeros on/off x total; every estimate() return is judged; distinct = content hash; '
+        '{1,2,3,10,100,1000} x structural zeros on/off x total; plus every estimate() made inside runs of the four shipped mechanisms; every estimate() return is judged; distinct = content hash; '
         'non-trivial = always (the empty-measurement class is part of the quantifier)')
 ANCHORS = ['FactoredInference.estimate', 'FactoredInference.mirror_descent', 'FactoredInference.dual_averaging',
            'FactoredInference.interior_gradient', 'GraphicalModel.project', 'GraphicalModel.datavector', 'GraphicalModel.mle',
@@ -31,6 +31,13 @@ ITERS = [1, 2, 3, 10, 100, 1000]
 
 
 def gen_case(rng, tier, idx):
+    if idx % 20 == 19:
+        # the post-condition stays installed while a shipped mechanism makes its own estimate() calls
+        from .. import mechrun
+        mech = ['mst', 'mwem', 'aim', 'adagrid'][(idx // 20) % 4]
+        attrs, shape, rows = mechrun.gen_dataset(rng)
+        return dict(cls='inside_mechanism', mech=mech, cfg=mechrun.gen_config(rng, mech, attrs, shape), attrs=attrs, shape=shape, rows=rows,
+                    solver='MD', iters=int(gen.pick(rng, [5, 40])), private_seed=int(rng.randint(2 ** 31)), post_seed=int(rng.randint(2 ** 31)))
     solver = ['MD', 'RDA', 'IG'][idx % 3]
     attrs, shape = gen.domain(rng, 2, 5, sizes=(1, 2, 3, 4) if solver == 'MD' else (2, 3, 4), max_cells=600)
     cls = gen.pick(rng, CLASSES)
@@ -75,6 +82,9 @@ def gen_case(rng, tier, idx):
 
 
 def describe(case):
+    if case['cls'] == 'inside_mechanism':
+        from .. import mechrun
+        return dict(cls=case['cls'], mechanism=case['mech'], attrs=case['attrs'], shape=case['shape'], records=int(case['rows'].shape[0]), iteration_cap=case['iters'])
     return dict(attrs=case['attrs'], shape=case['shape'], cls=case['cls'], solver=case['solver'], iters=case['iters'],
                 total=case['total'] if case['give_total'] else None, zeros=case['zeros'],
                 measurements=[dict(proj=list(m['proj']), kind=m['kind'], sigma=m['sigma']) for m in case['meas']])
@@ -133,7 +143,31 @@ def judge_model(ctx, model, attrs, shape, what=''):
                 break
 
 
+def run_inside_mechanism(case, ctx):
+    from .. import mechrun
+    H = mechrun.harness(case['iters'])
+    seen = {'n': 0}
+
+    def on_model(eng, model):
+        seen['n'] += 1
+        if not ctx.failures:
+            at, sh = list(model.domain.attrs), list(model.domain.shape)   # MST estimates over a compressed domain
+            judge_model(ctx, model, at, sh, what='%s, estimate #%d: ' % (case['mech'], seen['n']))
+
+    H.on_model = on_model
+    try:
+        r = H.run(case['cfg'], case['attrs'], case['shape'], case['rows'], 'record', case['private_seed'], case['post_seed'])
+    finally:
+        H.on_model = None
+    ctx.tag('inside:' + case['mech'])
+    ctx.mon('models_returned_inside_mechanisms', seen['n'])
+    if r['error'] is not None and seen['n'] == 0:
+        ctx.trivial = True
+
+
 def run_case(case, ctx):
+    if case['cls'] == 'inside_mechanism':
+        return run_inside_mechanism(case, ctx)
     attrs, shape, solver = case['attrs'], case['shape'], case['solver']
     dom = models.make_domain(attrs, shape)
     tuples = measure.as_tuples(case['meas'])
